@@ -16,3 +16,10 @@ CASES = [
          old="   check( value);\n   if (!mFormats.empty())\n   {\n      std::string  valCopy( value);\n      format( valCopy);\n      mDestVar = boost::lexical_cast< T>( valCopy);\n   } else\n   {\n      mDestVar = boost::lexical_cast< T>( value);\n   } // end if\n   mHasValueSet = true;",
          new="   check( value);\n   std::string  valCopy( value);\n   if (!mFormats.empty())\n      format( valCopy);\n   mDestVar = boost::lexical_cast< T>( valCopy);\n   mHasValueSet = true;"),
 ]
+
+CASES += [
+    dict(id='c01-split-last-equal', prop='C01', file='src/celma/prog_args/detail/arg_list_iterator.hpp', expect='R6',
+         old="argName.find_first_of( '=');", new="argName.rfind( '=');"),
+    dict(id='c01-eq-split-find', prop='C01', file='src/celma/prog_args/detail/arg_list_iterator.hpp', expect=None,
+         old="argName.find_first_of( '=');", new="argName.find( '=');"),
+]
